@@ -99,17 +99,9 @@ def r11c(ctx):
     if not ctx.check(len(ups) == 1, 'R11c', fn, 'upload_shard', '-', 'one upload_shard call in the shard task'):
         return
     u = ups[0]
-    ts = a.try_sites(u)
-    cont = []
-    for t in ts:
-        ve = a.variant_edges_of_try(t) if hasattr(a, 'variant_edges_of_try') else None
-    # success edge of upload_shard == Continue edge of its `?`
-    succ_edges = []
-    for t in ts:
-        sw = a.cfg.succ[t][0]
-        tt = a.blocks[sw]['t']
-        if tt['k'] == 'switch':
-            succ_edges += [(sw, tgt) for v, tgt in tt['ts'] if str(v) == '0']
+    # success edges of upload_shard: the Continue edge of its `?` or the Ok edge of an explicit match on its result
+    from .core import success_edges
+    succ_edges = success_edges(a, u)
     exps = a.calls('mdb_shard::shard_file_handle::MDBShardFile::export_with_expiration')
     regs = a.calls('mdb_shard::shard_file_manager::ShardFileManager::register_shards')
     ctx.check(len(exps) == 1 and len(regs) == 1, 'R11c', fn, 'export/register', '-', 'export_with_expiration and register_shards are each called once in the shard task')
